@@ -61,6 +61,80 @@ def strip_ev(r):
     return r.split(" ev=")[0]
 
 
+# ---- 2d: where re-presented entries appear: an independent statement of the documented interface ----
+
+DIR_POOL = [b"d/", b"d2/", b"da/", b"d/e/", b"d/e2/", b"d/ee/", b"d/e/g/", b"D/", b"h/", b"hh/", b"h/i/", b"h2/", b"k/", b"kk/"]
+
+
+def presentation_case(rnd):
+    """(members, entries): an archive of directories whose names are prefixes of one another's (d/ d2/ da/, d/e/ d/e2/ d/ee/),
+    small stored files inside and outside them, and dangerous links; every path is unique, parents come before children.
+    entries: [(kind, path or None, full name)] in archive order"""
+    dirs = set()
+    for d in rnd.sample(DIR_POOL, rnd.choice([2, 3, 4, 6])):
+        parts = d.split(b"/")[:-1]
+        for i in range(1, len(parts) + 1):
+            dirs.add(b"/".join(parts[:i]) + b"/")
+    dirs = sorted(dirs)
+    if rnd.random() < 0.5:
+        rnd.shuffle(dirs)
+        dirs.sort(key=lambda d: d.count(b"/"))        # parents first, siblings in random order
+    seed = {"method": "-lh0-", "data": b"abc", "length": 3, "crc": T.crc16(b"abc")}
+    ms, ents, used = [], [], set()
+
+    def add_content(d):
+        for _ in range(rnd.choice([0, 1, 1, 2])):
+            nm = rnd.choice([b"a", b"b", b"f", b"zz", b"d", b"d2", b"e", b"lnk"])
+            full = d + nm
+            if full in used or full + b"/" in dirs:
+                continue
+            used.add(full)
+            lv = rnd.choice([1, 2, 3]) if d else rnd.choice([0, 1, 2, 3])
+            if rnd.random() < 0.25:
+                ms.append(T.link_member(rnd, full, rnd.choice([b"..", b"../x", b"/outside", b"/"]), rnd.choice([1, 2, 3])))
+                ents.append(("link", d or None, full))
+            else:
+                ms.append(T.file_member(rnd, seed, full, lv, T.U, 0o100644, None, T.T_A))
+                ents.append(("file", d or None, full))
+    order = list(dirs)
+    if rnd.random() < 0.7:
+        for d in order:                          # each directory followed by (some of) its contents
+            ms.append(T.dir_member(rnd, d, rnd.choice([1, 2, 3]), 0o40755, None, T.T_B))
+            ents.append(("dir", d, d))
+            add_content(d)
+            if rnd.random() < 0.3:
+                add_content(b"")
+    else:
+        for d in order:
+            ms.append(T.dir_member(rnd, d, rnd.choice([1, 2, 3]), 0o40755, None, T.T_B))
+            ents.append(("dir", d, d))
+        ds = [rnd.choice(order + [b""]) for _ in range(rnd.choice([2, 4, 6]))]
+        for d in ds:
+            add_content(d)
+    return ms, ents
+
+
+def expected_presentation(policy, ents, acts, results):
+    """the sequence of entries lha_reader_next_file must hand out, from the interface description alone:
+    ("real", i) | ("dir", path) | ("link", full).  results[i] is True when the extract of entry i returned 1.
+    Under "eod" a directory that was extracted comes again right before the first later entry that is not within it
+    (its path does not start with the directory's), or at the end; under "eof" all of them at the end (order among
+    them not fixed here); never under "plain".  Deferred links after everything else, longest archive path first."""
+    seq, stack, links = [], [], []
+    for i, (kind, path, full) in enumerate(ents):
+        if policy == "eod":
+            while stack and not (path is not None and path.startswith(stack[-1])):
+                seq.append(("dir", stack.pop()))
+        seq.append(("real", i))
+        if acts[i] == "x" and results[i]:
+            if kind == "dir" and policy != "plain":
+                stack.append(path)
+            elif kind == "link":
+                links.append(full)
+    tail_dirs = [("dir", d) for d in reversed(stack)]
+    return seq, tail_dirs, links
+
+
 def run(ctx):
     rnd = random.Random(ctx.seed * 2654435761 + 15)
     cb = CBuild(PID)
@@ -297,6 +371,113 @@ def run(ctx):
                              "sig": "deferred-order"})
             elif c != m and not (m.endswith("FAULT 1411") or m.endswith("FAULT 1414")):
                 mism.append({"case": l[:6000], "c": c[:1500], "model": m[:1500]})
+        # ---- 2d. re-presented directories and links at the documented places (direct oracle, no model), and: once next_file
+        #          has returned NULL it returns NULL for good (archives with an unreadable header in the middle)
+        pmeta = []
+        for _ in range(150 if ctx.quick else 4000):
+            ms, ents = presentation_case(rnd)
+            acts = [("x" if rnd.random() < 0.85 else rnd.choice(["-", "c", "r5"])) for _e in ents]
+            pmeta.append((rnd.choice(T.KINDS), rnd.choice(["eod", "eod", "eof", "plain"]), T.archive(ms), ents, acts))
+        # the expected sequence needs to know which extracts succeed: a run under the plain policy (nothing is re-presented
+        # there, the results of the extracts are the same) tells
+        res_lines = [T.case(k_, "plain", arc_, sum([["n"] + ([a_] if a_ != "-" else []) for a_ in acts], []))
+                     for (k_, pol, arc_, ents, acts) in pmeta]
+        if mode != "chroot":
+            keep = [i for i, l in enumerate(res_lines) if T.plain_ok(l)]
+            res_lines, pmeta = [res_lines[i] for i in keep], [pmeta[i] for i in keep]
+        res_out = common.run_lines_parallel([drv], res_lines)
+        runs, runmeta = [], []
+        for (k_, pol, arc_, ents, acts), l_, o_ in zip(pmeta, res_lines, res_out):
+            if "CHILD-FAILED" in o_ or "|" not in o_:
+                viol.append({"property": PID, "kind": "reader-abnormal-termination", "case": l_, "observed": o_[-600:], "sig": "crash"})
+                continue
+            parts = parts_of(o_)
+            results, j = [], 0
+            for a_ in acts:
+                j += 1                                   # the n
+                if a_ != "-":
+                    results.append(a_ == "x" and strip_ev(parts[j]).startswith("x=1"))
+                    j += 1
+                else:
+                    results.append(False)
+            seq, tail_dirs, links = expected_presentation(pol, ents, acts, results)
+            ops = []
+            for what, v in seq:
+                ops.append("n")
+                if what == "real":
+                    if acts[v] != "-":
+                        ops.append(acts[v])
+                else:
+                    ops.append("x")
+            ops += ["n", "x"] * (len(tail_dirs) + len(links)) + ["n", "n", "n"]
+            runs.append(T.case(k_, pol, arc_, ops))
+            runmeta.append((pol, ents, seq, tail_dirs, links, ops))
+        pout = common.run_lines_parallel([drv], runs)
+        for l_, o_, (pol, ents, seq, tail_dirs, links, ops) in zip(runs, pout, runmeta):
+            dist["presentation:" + pol] += 1
+            if "CHILD-FAILED" in o_ or "|" not in o_:
+                viol.append({"property": PID, "kind": "reader-abnormal-termination", "case": l_, "observed": o_[-600:], "sig": "crash"})
+                continue
+            got = []
+            for op, r in zip(ops, parts_of(o_)):
+                if op != "n":
+                    continue
+                if r.startswith("n:NULL"):
+                    got.append(("end", None))
+                elif T.hfield(r, "fake") == "0":
+                    got.append(("real", (T.hstr(T.hfield(r, "p")) or b"") + (T.hstr(T.hfield(r, "fn")) or b"")))
+                elif T.hfield(r, "st") == "NULL":
+                    got.append(("dir", T.hstr(T.hfield(r, "p"))))
+                else:
+                    got.append(("link", (T.hstr(T.hfield(r, "p")) or b"") + (T.hstr(T.hfield(r, "fn")) or b"")))
+            exp = [("real", ents[v][2]) if w == "real" else (w, v) for w, v in seq]
+            bad = None
+            n1 = len(exp)
+            if got[:n1] != exp:
+                k = next(i for i in range(n1) if i >= len(got) or got[i] != exp[i])
+                bad = "entry %d returned is %r, the interface description gives %r" % (k, got[k] if k < len(got) else None, exp[k])
+            else:
+                rest = got[n1:]
+                nd, nl = len(tail_dirs), len(links)
+                if sorted(rest[:nd]) != sorted(tail_dirs):
+                    bad = "directories re-presented at the end: %r, expected (any order) %r" % (rest[:nd], tail_dirs)
+                elif [w for w, _ in rest[nd:nd + nl]] != ["link"] * nl or sorted(v for _, v in rest[nd:nd + nl]) != sorted(links) \
+                        or any(len(a[1]) < len(b[1]) for a, b in zip(rest[nd:nd + nl], rest[nd + 1:nd + nl])):
+                    bad = "deferred links at the end: %r, expected after every directory, longest first: %r" % (rest[nd:nd + nl], links)
+                elif any(g != ("end", None) for g in rest[nd + nl:]) or len(rest) < nd + nl + 3:
+                    bad = "after the last entry: %r, expected the end three times" % (rest[nd + nl:],)
+            if bad:
+                viol.append({"property": PID, "kind": "re-presented-entry-at-the-wrong-place", "case": l_, "policy": pol, "what": bad,
+                             "expected_sequence": [(w, v.decode("latin1") if isinstance(v, bytes) else v) for w, v in exp],
+                             "sig": "presentation"})
+        # an unreadable header in mid-archive is the end, and stays the end
+        elines = []
+        seed0 = {"method": "-lh0-", "data": b"hello", "length": 5, "crc": T.crc16(b"hello")}
+        for _ in range(60 if ctx.quick else 1000):
+            m1 = T.file_member(rnd, seed0, b"first", rnd.randrange(4)).bytes()
+            m2 = T.file_member(rnd, seed0, b"second", rnd.randrange(4)).bytes()
+            junk = bytes(rnd.randrange(256) for _ in range(rnd.choice([22, 22, 23, 24, 30, 1, 5, 21, 60])))
+            if len(junk) > 20:
+                junk = junk[:20] + bytes([rnd.choice([4, 5, 9, 0x80, 0xff])]) + junk[21:]     # no header level like that
+            junk = b"\x19" + junk[1:2] + b"-lh0-" + junk[7:] if len(junk) >= 22 and rnd.random() < 0.7 else junk
+            arc = m1 + junk + m2 + (m2 if rnd.random() < 0.5 else b"") + b"\0"
+            elines.append(T.case(rnd.choice(T.KINDS), rnd.choice(T.POLICIES), arc, ["n", rnd.choice(["n", "c", "r5", "x"]), "n", "n", "n", "n", "n"]))
+        eout = common.run_lines_parallel([drv], elines)
+        for l_, o_ in list(zip(elines, eout)) + list(zip(lines, cout)) + list(zip(mlines, outs)) + list(zip(runs, pout)):
+            if "|" not in o_:
+                continue
+            seen_end = False
+            for op, r in zip(l_.split()[5].split(","), parts_of(o_)):
+                if op != "n":
+                    continue
+                if r.startswith("n:NULL"):
+                    seen_end = True
+                elif seen_end:
+                    dist["entry-after-end"] += 1
+                    viol.append({"property": PID, "kind": "entry-returned-after-the-end", "case": l_, "observed": r[:300],
+                                 "what": "lha_reader_next_file returned NULL and later returned an entry", "sig": "after-end-entry"})
+                    break
+        dist["end-stays-end"] = len(elines)
         # ---------------------------------------------------------------- 3. two readers, interleaved and on two threads
         two, ref = [], []
         n_two = 150 if ctx.quick else 3000
@@ -335,7 +516,7 @@ def run(ctx):
                 if o.strip() != exp.strip():
                     viol.append({"property": PID, "kind": "two-readers-%s-differ-from-separate-runs" % kind, "case": l,
                                  "expected": exp[:1500], "observed": o[:1500], "sig": "two-readers"})
-        cov = {"evaluations": len(lines) + len(mlines) + len(alines) + len(blines) + len(dlines) + 2 * n_two + len(ref), "distinct_nontrivial": nontriv,
+        cov = {"evaluations": len(lines) + len(mlines) + len(alines) + len(blines) + len(dlines) + len(res_lines) + len(runs) + len(elines) + 2 * n_two + len(ref), "distinct_nontrivial": nontriv,
                "rule": "1. correspondence: every op sequence over {n, r5, r100000, c, x} up to length %d that respects the protocol "
                        "(%d of them) x 12 small archives x 3 directory policies x stream kinds in rotation (%d cases) and random "
                        "protocol-respecting sequences over generated archives (nested directories, safe/dangerous links, MacBinary "
@@ -345,7 +526,7 @@ def run(ctx):
                        "header sequence, same full-read result, same check verdict per member; after the end every request "
                        "reports end.  2b. extract-everything runs, repeated with reads/checks added on every entry the reader "
                        "re-presents (fake directory, deferred link) and after the end: those requests return 0, every other result "
-                       "and the extracted tree are unchanged.  2c. archives with 2-4 dangerous links of different path lengths, each extracted under its own or a caller-supplied name: the re-presented links come after everything else in non-increasing ARCHIVE path length (direct oracle on the C) and as the model says.  3. two readers: interleaved by a random schedule in one thread and concurrently on two "
+                       "and the extracted tree are unchanged.  2c. archives with 2-4 dangerous links of different path lengths, each extracted under its own or a caller-supplied name: the re-presented links come after everything else in non-increasing ARCHIVE path length (direct oracle on the C) and as the model says.  2d. archives of directories whose names are prefixes of one another's (d/ d2/ da/, d/e/ d/e2/), files inside and outside them and dangerous links, extracted with some entries skipped / checked / read: the sequence handed out by next_file must be the one the interface description gives (eod: an extracted directory right before the first later entry whose path does not start with its path, else at the end; eof: all at the end; plain: never; deferred links after every directory, longest archive path first; then the end, three times) -- computed by the harness without the model; archives with an unreadable header between two members: once next_file has returned NULL no later call returns an entry (checked on every output of families 1, 2, 2d too).  3. two readers: interleaved by a random schedule in one thread and concurrently on two "
                        "threads (ThreadSanitizer build; a data race report is a failure) = the two separate runs.  non-trivial "
                        "= archive with at least two entries in the metamorphic family" % (3 if ctx.quick else 4, len(seqs), n_ex),
                "distribution": dict(dist), "samples": [lines[0][:300], mlines[0][:300] if mlines else "", two[0][1][:300]]}
